@@ -243,7 +243,10 @@ def build(ctx):
     def fit_limits(filter_rows):
         def run():
             o = run_fit(filter_rows, None)
-            cols, nrows, _ = data_cols(o, filter_rows)
+            dc = data_cols(o, filter_rows)
+            if dc is None:
+                return be.Verdict(be.REFUTED, "STRUCT", witness={}, detail="no single filtered table")
+            cols, nrows, _ = dc
             mc = o.heap["ghost"]["minimize_calls"][0]
             P = mc["minimizer"].params.items
             res = o.value
